@@ -76,6 +76,9 @@ __CPROVER_assigns(g_failed) __CPROVER_ensures(g_failed == (__CPROVER_old(g_faile
    the analysed depth does not change at the CNTXT_ITEM itself (the skipped instructions account for it). */
 #define NET(k) ((k) == CNTXT_ITEM ? 0 : OP_EFFECT[k].net)
 
+#define ACC(r) ((r) != MAX_OPCODE)
+#define OPC    (g_bc[0])
+#define P16(i) ((uint16)((uint16)(g_bc[i] << 8) | g_bc[(i) + 1]))
 opcode decoder_fetch_opcode(decoder *self, const byte *bc)
 __CPROVER_requires(bc == g_bc && self->_stack_depth == g_depth0 && !g_failed)
 __CPROVER_requires(g_depth0 >= 0 && g_depth0 < 100000)
@@ -85,7 +88,24 @@ __CPROVER_ensures(__CPROVER_return_value != MAX_OPCODE ==> (__CPROVER_return_val
         && (self->_code_->_constraint ? OP_EFFECT[g_bc[0]].impl_constraint : OP_EFFECT[g_bc[0]].impl_action) != 0))
 /* accepted ==> enough operands on the analysed stack for the body, and the analysis follows the body's net effect */
 __CPROVER_ensures(__CPROVER_return_value != MAX_OPCODE ==> (g_depth0 >= OP_EFFECT[g_bc[0]].required
-        && self->_stack_depth == g_depth0 + NET(g_bc[0])));
+        && self->_stack_depth == g_depth0 + NET(g_bc[0])))
+/* accepted ==> every table index the body will use lies below the limit of the table it indexes (the run-time side takes these
+   as preconditions: Silf::findClassIndex / getClassGlyph need cid < numClasses (c02_find_class_index, c02_get_class_glyph), the
+   user-attribute cell of Slot::setAttr / getAttr needs subindex < numUser (c02_slot_userattr), glyph attributes and features likewise) */
+__CPROVER_ensures((ACC(__CPROVER_return_value) && (OPC == IATTR_SET || OPC == IATTR_ADD || OPC == IATTR_SUB || OPC == IATTR_SET_SLOT))
+        ==> (g_bc[1] < gr_slatMax && g_bc[2] < self->_max_->attrid[g_bc[1]]))
+__CPROVER_ensures((ACC(__CPROVER_return_value) && OPC == PUSH_ISLOT_ATTR) ==> (g_bc[1] < gr_slatMax && g_bc[3] < self->_max_->attrid[g_bc[1]]))
+__CPROVER_ensures((ACC(__CPROVER_return_value) && (OPC == ATTR_SET || OPC == ATTR_ADD || OPC == ATTR_SUB || OPC == ATTR_SET_SLOT || OPC == PUSH_SLOT_ATTR))
+        ==> (g_bc[1] < gr_slatMax && g_bc[1] != gr_slatUserDefn))
+__CPROVER_ensures((ACC(__CPROVER_return_value) && OPC == PUT_GLYPH_8BIT_OBS) ==> g_bc[1] < self->_max_->classes)
+__CPROVER_ensures((ACC(__CPROVER_return_value) && OPC == PUT_SUBS_8BIT_OBS) ==> (g_bc[2] < self->_max_->classes && g_bc[3] < self->_max_->classes))
+__CPROVER_ensures((ACC(__CPROVER_return_value) && OPC == PUT_SUBS) ==> (P16(2) < self->_max_->classes && P16(4) < self->_max_->classes))
+__CPROVER_ensures((ACC(__CPROVER_return_value) && OPC == PUT_GLYPH) ==> P16(1) < self->_max_->classes)
+__CPROVER_ensures((ACC(__CPROVER_return_value) && (OPC == PUSH_GLYPH_ATTR_OBS || OPC == PUSH_ATT_TO_GATTR_OBS)) ==> g_bc[1] < self->_max_->glyf_attrs)
+__CPROVER_ensures((ACC(__CPROVER_return_value) && (OPC == PUSH_GLYPH_ATTR || OPC == PUSH_ATT_TO_GLYPH_ATTR)) ==> P16(1) < self->_max_->glyf_attrs)
+__CPROVER_ensures((ACC(__CPROVER_return_value) && (OPC == PUSH_FEAT || OPC == SET_FEAT)) ==> g_bc[1] < self->_max_->features)
+__CPROVER_ensures((ACC(__CPROVER_return_value) && (OPC == PUSH_GLYPH_METRIC || OPC == PUSH_ATT_TO_GLYPH_METRIC)) ==> g_bc[1] < kgmetDescent)
+__CPROVER_ensures((ACC(__CPROVER_return_value) && OPC == ASSOC) ==> g_bc[1] != 0);
 
 /* ---- extracted code */
 bool decoder_validate_opcode(decoder *self, const byte opc, const byte *const bc);
